@@ -311,8 +311,9 @@ class ClassicMaster:
     """Protocol-following master: presents a request and holds it until the cycle in which ack is seen;
     arbitrary idle gaps; hot addresses so that reads meet earlier partial writes."""
 
-    def __init__(self, nb, adr_max, hot=6, cti_random=False):
+    def __init__(self, nb, adr_max, hot=6, cti_random=False, hot_adrs=()):
         self.nb, self.adr_max, self.hot_n, self.cti_random = nb, adr_max, hot, cti_random
+        self.hot_adrs = list(hot_adrs)
         self.reset()
 
     def reset(self):
@@ -321,7 +322,7 @@ class ClassicMaster:
 
     def next(self, rng, t, last_letter, last_outs):
         if self.hot is None:
-            self.hot = [rng.randint(0, self.adr_max) for _ in range(self.hot_n)]
+            self.hot = [rng.randint(0, self.adr_max) for _ in range(self.hot_n)] + self.hot_adrs
         if self.pending is not None and last_outs is not None and not last_outs[0]:
             return self.pending
         self.pending = None
@@ -398,8 +399,9 @@ class RefSlave:
     lanes.  It reads the adapter's slave-side request from the previous cycle's sampled outputs (the adapter
     holds an un-acknowledged request)."""
 
-    def __init__(self, nbs, off=3, init_fn=None, p_ack=(0.5, 1.0, 0.2, 0.9), garbage=True):
+    def __init__(self, nbs, off=3, init_fn=None, p_ack=(0.5, 1.0, 0.2, 0.9), garbage=True, adr_shift=0):
         self.nbs, self.off, self.init_fn, self.p_ack, self.garbage = nbs, off, init_fn, p_ack, garbage
+        self.adr_shift = adr_shift    # byte-addressed buses: word index = adr >> log2(nbs)
         self.reset()
 
     def reset(self):
@@ -424,7 +426,7 @@ class RefSlave:
             return (0, junk, 0)
         d = 0
         for lane in range(self.nbs):
-            a = sadr * self.nbs + lane
+            a = (sadr >> self.adr_shift) * self.nbs + lane
             if swe:
                 if (ssel >> lane) & 1:
                     self.mem[a] = (sdat >> (8 * lane)) & 0xFF
